@@ -715,6 +715,7 @@ def random_falsify(unit, seed, n):
     rng = random.Random(seed)
     tried = 0
     prev = None
+    stats = unit.__dict__.setdefault('_native_stats', {'ran': {}, 'pre_false': {}})
     for i in range(n):
         mode = 'fresh'
         if prev is not None:
@@ -738,8 +739,16 @@ def random_falsify(unit, seed, n):
         keep = {}
         use_prev = mode != 'fresh' and unit.native_obj is not None
         nat = native_check(unit, vals, obj=prev[1] if use_prev else None, keep=keep)
+        # which enumerated case of the unit this input belongs to (run-time coverage per case is reported; a case whose
+        # inputs are ALL rejected by the precondition was never replayed on the real code)
+        label = ''
+        if unit.cases and unit.cases != [{}]:
+            keys = sorted(unit.cases[0].keys())
+            label = ''.join('[%s=%s]' % (k, vals.get(k)) for k in keys)
         if nat['status'] == 'pre-false':
+            stats['pre_false'][label] = stats['pre_false'].get(label, 0) + 1
             continue
+        stats['ran'][label] = stats['ran'].get(label, 0) + 1
         tried += 1
         if nat['status'] == 'violation':
             out = {'inputs': vals, 'native': nat}
